@@ -599,7 +599,7 @@ func (a *float64Array) exportType() reflect.Type {
 }
 
 func (a *bigInt64Array) toRaw(value Value) uint64 {
-	return toBigInt64(value).Uint64()
+	return uint64(toBigInt64(value).Int64())
 }
 
 func (a *bigInt64Array) ptr(idx int) *int64 {
